@@ -165,7 +165,12 @@ class C18(Prop):
         n = 24 if tier == 'quick' else 200
         cases = []
         for i in range(n):
-            c = tied_topn_case(rng, tier) if rng.random() < 0.7 else sl.gen_session(rng, tier, max_days=25)
+            r_ = rng.random()
+            if r_ < 0.25:
+                # symbols equal up to letter case, fixed long/short weights: any case-insensitive ordering leaves their order to the hash seed
+                c = sl.gen_session(rng, tier, max_days=25, fixed_only=True, collide=True)
+            else:
+                c = tied_topn_case(rng, tier) if r_ < 0.75 else sl.gen_session(rng, tier, max_days=25)
             cases.append(c)
         runs = {}
         for s in (SEEDS if tier == 'thorough' else SEEDS[:4]):
